@@ -7,7 +7,12 @@ package main
 // case line:  tax|taxd n<id>:<parent>:<rankhex>… a<old>:<new>… q<op>:<args>…
 //   tax  : the taxonomy is built through the API (NewTaxonomy, AddNewTaxa, ReindexParent, AddNewName, AddNewAlias)
 //   taxd : the same data is written as nodes.dmp / names.dmp / merged.dmp and loaded by ncbitaxdump.LoadNCBITaxDump
-// result: one word per query (or reindex-err).
+//   dump N<hex nodes.dmp> M<hex names.dmp> G<hex merged.dmp> [n… a…] q… : the three files are given as bytes and loaded by
+//          LoadNCBITaxDump (the model of the loader, Model/TaxLoad.lean, reads the same bytes); the n…/a… words are the tree the
+//          generator declared (oracle), absent when the files were damaged on purpose (then the model is the only reference)
+// result: one word per query (or reindex-err / panic for a loader panic).
+// queries added in the deepening round: str:<hex> (Taxon(string)), rss:<hex>:s (IsSubCladeOfSlot on a string attribute),
+// isub:c irank:r ibel:c,c (ITaxonSet filters drained, sorted), tpath:s (taxonomic_path), name:x, state (nodes and alias maps).
 //
 // The oracle is computed from the parent table of the case line only (ancestor chains walked naively).
 
@@ -50,6 +55,9 @@ type c14Tree struct {
 	rank    map[int]string
 	aliases [][2]int // (old, new) in AddNewAlias order
 	ref     *c14Ref  // cached by getRef (generators only, once the aliases are in place)
+	// mode dump: the bytes of nodes.dmp / names.dmp / merged.dmp (ids etc. then hold the tree the generator
+	// declared, empty when the dump is not meant to be one)
+	dumpN, dumpM, dumpG []byte
 }
 
 func (t *c14Tree) getRef() *c14Ref {
@@ -75,6 +83,34 @@ func c14Unhex(s string) (string, bool) {
 		return "", false
 	}
 	return string(b), true
+}
+
+func c14UnhexB(s string) ([]byte, bool) {
+	r, ok := c14Unhex(s)
+	if !ok {
+		return nil, false
+	}
+	for i := 0; i < len(r); i++ {
+		if r[i] >= 0x80 {
+			return nil, false
+		}
+	}
+	return []byte(r), true
+}
+
+// dumpLine: a dump case; the declared tree (n…, a… words) is given when the dump is meant to be that tree
+func (t *c14Tree) dumpLine(declared bool, qs []string) string {
+	var sb strings.Builder
+	fmt.Fprintf(&sb, "dump N%s M%s G%s", c14Hex(string(t.dumpN)), c14Hex(string(t.dumpM)), c14Hex(string(t.dumpG)))
+	if declared {
+		rest := t.line("", nil)
+		sb.WriteString(rest)
+	}
+	for _, q := range qs {
+		sb.WriteString(" q")
+		sb.WriteString(q)
+	}
+	return sb.String()
 }
 
 func (t *c14Tree) line(mode string, qs []string) string {
@@ -217,6 +253,12 @@ func c14AnyID(rng *rand.Rand, t *c14Tree) int {
 		return t.freshID(rng)
 	case r <= 3 && len(t.aliases) > 0:
 		return t.aliases[rng.Intn(len(t.aliases))][0]
+	case r == 4: // the root
+		for _, x := range t.ids {
+			if t.parent[x] == x {
+				return x
+			}
+		}
 	}
 	return t.ids[rng.Intn(len(t.ids))]
 }
@@ -309,7 +351,38 @@ func c14RandQueries(rng *rand.Rand, t *c14Tree, ranks []string, k int) []string 
 		return c14Hex(t.rank[t.ids[rng.Intn(len(t.ids))]])
 	}
 	for i := 0; i < k; i++ {
-		switch rng.Intn(22) {
+		switch rng.Intn(28) {
+		case 22:
+			qs = append(qs, "str:"+c14Hex(c14StrForm(rng, t)))
+		case 23:
+			qs = append(qs, fmt.Sprintf("rss:%s:%s", c14Hex(c14StrForm(rng, t)), c14SeqAttr(rng, t)))
+		case 24:
+			if (len(t.ids) > 400 && rng.Intn(4) > 0) || (len(t.ids) > 40 && rng.Intn(2) > 0) { // long listings: not too many
+				qs = append(qs, fmt.Sprintf("lca:%d:%d", c14AnyID(rng, t), c14AnyID(rng, t)))
+			} else {
+				qs = append(qs, fmt.Sprintf("isub:%d", c14AnyID(rng, t)))
+			}
+		case 25:
+			if len(t.ids) > 40 && rng.Intn(2) > 0 {
+				qs = append(qs, fmt.Sprintf("rank:%d:%s", c14AnyID(rng, t), rk()))
+			} else {
+				qs = append(qs, "irank:"+rk())
+			}
+		case 26:
+			if (len(t.ids) > 400 && rng.Intn(4) > 0) || (len(t.ids) > 40 && rng.Intn(2) > 0) {
+				qs = append(qs, fmt.Sprintf("sub:%d:%d", c14AnyID(rng, t), c14AnyID(rng, t)))
+			} else {
+				qs = append(qs, "ibel:"+c14IDList(rng, t, rng.Intn(4)))
+			}
+		case 27:
+			switch r := rng.Intn(3); {
+			case r == 0 && len(t.ids) <= 400:
+				qs = append(qs, "state")
+			case r == 1:
+				qs = append(qs, fmt.Sprintf("name:%d", c14AnyID(rng, t)))
+			default:
+				qs = append(qs, "tpath:"+c14SeqAttr(rng, t))
+			}
 		case 0, 1:
 			qs = append(qs, fmt.Sprintf("path:%d", c14AnyID(rng, t)))
 		case 2, 3, 4, 5:
@@ -361,6 +434,249 @@ func c14RandQueries(rng *rand.Rand, t *c14Tree, ranks []string, k int) []string 
 	return qs
 }
 
+// c14StrForm: a string handed to Taxonomy.Taxon(string): the forms it parses and near misses
+func c14StrForm(rng *rand.Rand, t *c14Tree) string {
+	a, b := c14AnyID(rng, t), c14AnyID(rng, t)
+	switch rng.Intn(30) {
+	case 0, 1, 2:
+		return fmt.Sprintf("%d", a)
+	case 3, 4, 5, 6:
+		return fmt.Sprintf("TX:%d", a)
+	case 7, 8:
+		return fmt.Sprintf("Some name [TX:%d]", a)
+	case 9:
+		return fmt.Sprintf("+%d", a)
+	case 10:
+		return fmt.Sprintf("-%d", a)
+	case 11:
+		return fmt.Sprintf("TX:TX:%d", a)
+	case 12:
+		return fmt.Sprintf("TX:x TX:%d", a)
+	case 13:
+		return fmt.Sprintf("TX:%d TX:%d", a, b)
+	case 14:
+		return fmt.Sprintf("%d TX:%d", a, b)
+	case 15:
+		return fmt.Sprintf("tx:%d", a)
+	case 16:
+		return fmt.Sprintf("TX: %d", a)
+	case 17:
+		return fmt.Sprintf("TX:%dabc%d", a, b)
+	case 18:
+		return fmt.Sprintf("00%d", a)
+	case 19:
+		return fmt.Sprintf(" %d", a)
+	case 20:
+		return fmt.Sprintf("%d ", a)
+	case 21:
+		return fmt.Sprintf("TX:00%d", a)
+	case 22:
+		return fmt.Sprintf("code:%d [name]@species", a)
+	case 23:
+		return []string{"", "TX:", "TX", "T", "X:1", "TX:-1", "TX:+1", "-", "+", "-0", "+0", "TX:0", "--1", "1_0", "0x1", "1e1", "TTX:1", "TX:TX:", "TXTX:1"}[rng.Intn(19)]
+	case 24:
+		return fmt.Sprintf("T%dX:%d:TX:%d", a, b, a)
+	case 25:
+		return fmt.Sprintf("%d:%d", a, b)
+	case 26:
+		return fmt.Sprintf("TX:%d|TX:%d", b, a)
+	case 27:
+		return fmt.Sprintf("X:%d TX%d TX:%d.", a, a, b)
+	case 28:
+		return fmt.Sprintf("-TX:%d", a)
+	}
+	return fmt.Sprintf("taxon TX:%d [n%d]@rank", a, a)
+}
+
+// ---------------------------------------------------------------------------------------------
+// dump files
+
+// ranks usable in a dump meant to be read back unchanged: ASCII, no '|', '"', line break, no blank at either end
+var c14DumpOddRanks = []string{"", "Species", "a b", "x:y,z=t", "#rank", "no  rank", "r'1", "sub-species", "0", "-"}
+
+var c14Pads = []string{"", "\t", " ", "  ", "\t ", " \t", "\t\t"}
+
+func c14Pad(rng *rand.Rand, ncbi bool) string {
+	if ncbi {
+		return "\t"
+	}
+	return c14Pads[rng.Intn(len(c14Pads))]
+}
+
+func c14Num(rng *rand.Rand, v int, ncbi bool) string {
+	if !ncbi {
+		switch rng.Intn(25) {
+		case 0:
+			return fmt.Sprintf("+%d", v)
+		case 1:
+			return fmt.Sprintf("00%d", v)
+		}
+	}
+	return strconv.Itoa(v)
+}
+
+// c14RenderDump writes the tree as nodes.dmp / names.dmp / merged.dmp in a random but equivalent layout (ncbi: the
+// exact layout of the NCBI files). The rendering must load as exactly the tree t with the names c14Name.
+func c14RenderDump(rng *rand.Rand, t *c14Tree, ncbi bool) {
+	var nodes, names, merged strings.Builder
+	nExtra, endBar, crlf := 2, true, 0
+	if !ncbi {
+		nExtra, endBar, crlf = rng.Intn(4), rng.Intn(4) > 0, []int{0, 0, 1, 2}[rng.Intn(4)] // 1: all lines, 2: some lines
+	}
+	nl := func() string {
+		if crlf == 1 || (crlf == 2 && rng.Intn(2) == 0) {
+			return "\r\n"
+		}
+		return "\n"
+	}
+	row := func(sb *strings.Builder, fields []string, last bool) {
+		for i, f := range fields {
+			if i > 0 {
+				sb.WriteString("|")
+			}
+			sb.WriteString(c14Pad(rng, ncbi && i > 0))
+			sb.WriteString(f)
+			sb.WriteString(c14Pad(rng, ncbi))
+		}
+		if endBar {
+			sb.WriteString("|")
+		}
+		switch {
+		case last && !ncbi && rng.Intn(6) == 0:
+		case last && !ncbi && rng.Intn(8) == 0:
+			sb.WriteString("\r")
+		default:
+			sb.WriteString(nl())
+		}
+	}
+	noise := func(sb *strings.Builder) {
+		if !ncbi && rng.Intn(12) == 0 {
+			sb.WriteString([]string{"# a comment | with \" bars\n", "\n", "\r\n", "#\n", "#1|1|x|\r\n"}[rng.Intn(5)])
+		}
+	}
+	for i, id := range t.ids {
+		noise(&nodes)
+		f := []string{c14Num(rng, id, ncbi), c14Num(rng, t.parent[id], ncbi), t.rank[id]}
+		for k := 0; k < nExtra; k++ {
+			if ncbi {
+				f = append(f, []string{"", "8"}[k])
+			} else {
+				f = append(f, []string{"", "8", "code compliant; specified", "x y"}[rng.Intn(4)])
+			}
+		}
+		row(&nodes, f, i == len(t.ids)-1)
+	}
+	// names: decoys first (other classes, unknown taxids, an earlier scientific name), then the scientific names
+	var nameRows [][]string
+	for _, id := range t.ids {
+		switch rng.Intn(6) {
+		case 0:
+			nameRows = append(nameRows, []string{strconv.Itoa(id), fmt.Sprintf("old \"name\" %d", id), "", "scientific name"})
+		case 1:
+			nameRows = append(nameRows, []string{strconv.Itoa(id), fmt.Sprintf("syn %d", id), "", "synonym"})
+		case 2:
+			nameRows = append(nameRows, []string{strconv.Itoa(t.freshID(rng)), "#ghost", "", "scientific name"})
+		}
+	}
+	order := rng.Perm(len(t.ids))
+	for _, i := range order {
+		id := t.ids[i]
+		nameRows = append(nameRows, []string{c14Num(rng, id, ncbi), c14Name(id), fmt.Sprintf("u%d", id), "scientific name"})
+		if rng.Intn(4) == 0 {
+			nameRows = append(nameRows, []string{strconv.Itoa(id), fmt.Sprintf("common %d", id), "", []string{"common name", "Scientific name", "scientific  name", "scientific name x", ""}[rng.Intn(5)]})
+		}
+	}
+	for i, r := range nameRows {
+		row(&names, r, i == len(nameRows)-1)
+	}
+	for i, a := range t.aliases {
+		noise(&merged)
+		row(&merged, []string{c14Num(rng, a[0], ncbi), c14Num(rng, a[1], ncbi)}, i == len(t.aliases)-1)
+	}
+	t.dumpN, t.dumpM, t.dumpG = []byte(nodes.String()), []byte(names.String()), []byte(merged.String())
+}
+
+// c14Spoil damages a rendered dump in one way (the result is no more the declared tree: model-only reference).
+// The tree must list parents before children so that a truncated nodes.dmp is still closed under parents.
+func c14Spoil(rng *rand.Rand, t *c14Tree) string {
+	lines := func(b []byte) []string { return strings.SplitAfter(string(b), "\n") }
+	nl, ml, gl := lines(t.dumpN), lines(t.dumpM), lines(t.dumpG)
+	late := func(l []string) int { return len(l) - 1 - rng.Intn(min(len(l), 3)) }
+	ins := func(l []string, i int, s string) []string {
+		if i < 0 {
+			i = 0
+		}
+		out := append([]string{}, l[:i]...)
+		out = append(out, s)
+		return append(out, l[i:]...)
+	}
+	kind := []string{"dup", "bare-quote", "field-count", "nan", "short-first", "blank-line", "names-empty", "names-short",
+		"names-comment", "names-long", "no-parent", "merged-quote", "merged-nan", "big-id", "too-big-id", "odd-space",
+		"merged-count", "names-nan", "quote-comment"}[rng.Intn(19)]
+	x := t.ids[rng.Intn(len(t.ids))]
+	nodeRow := func(id, parent, rank string) string { return id + "\t|\t" + parent + "\t|\t" + rank + "\t|\t\t|\t8\t|\n" }
+	itoa := strconv.Itoa
+	switch kind {
+	case "dup": // a taxid given twice: the last line wins
+		nl = append(nl, nodeRow(itoa(x), itoa(t.ids[0]), "dup rank"))
+	case "bare-quote": // ErrBareQuote ends the loop silently
+		nl = ins(nl, late(nl), nodeRow(itoa(t.freshID(rng)), itoa(x), "spe\"cies"))
+	case "field-count": // ErrFieldCount ends the loop silently
+		nl = ins(nl, late(nl), fmt.Sprintf("%d|%d|species|a|b|c|d|e|f|g\n", t.freshID(rng), x))
+	case "nan":
+		nl = ins(nl, late(nl), nodeRow([]string{"x", "1x", "", "1 2", "1_0", "0x1", "1.0"}[rng.Intn(7)], "1", "species"))
+		if rng.Intn(2) == 0 {
+			nl = ins(nl, late(nl), nodeRow(itoa(t.freshID(rng)), []string{"y", "", "1-"}[rng.Intn(3)], "species"))
+		}
+	case "short-first":
+		nl = ins(nl, 0, []string{"1|1\n", "1\n", "1|\n", "x\n"}[rng.Intn(4)])
+	case "blank-line": // a line of blanks is a record with one empty field
+		nl = ins(nl, late(nl), []string{" \n", "\t\n", " \r\n", "\v\n"}[rng.Intn(4)])
+	case "names-empty":
+		ml = ins(ml, late(ml), "\n")
+	case "names-short":
+		ml = ins(ml, late(ml), []string{"1|a|b\n", "1|a\n", "1\n", "1|a|b|\n"}[rng.Intn(4)])
+	case "names-comment":
+		ml = ins(ml, late(ml), "# not a comment here\n")
+	case "names-nan":
+		ml = ins(ml, late(ml), " |a|b|scientific name|\n")
+	case "names-long": // a line that does not fit the 4096 byte buffer ends the names silently
+		n := []int{4095, 4096, 4097, 5000, 9000}[rng.Intn(5)]
+		tail := "|u|scientific name|" // exactly n bytes before the line break
+		ml = ins(ml, rng.Intn(len(ml)), itoa(x)+"|"+strings.Repeat("z", n-len(itoa(x))-1-len(tail))+tail+"\n")
+	case "no-parent":
+		nl = ins(nl, late(nl), nodeRow(itoa(t.freshID(rng)), itoa(t.freshID(rng)), "species"))
+	case "merged-quote":
+		gl = ins(gl, late(gl), fmt.Sprintf("%d\t|\t%d\"\t|\n", t.freshID(rng), x))
+	case "merged-nan":
+		gl = ins(gl, late(gl), []string{"a\t|\t1\t|\n", "1\t|\tb\t|\n", "\t|\t\t|\n"}[rng.Intn(3)])
+	case "merged-count":
+		gl = ins(gl, late(gl), fmt.Sprintf("%d|%d|x|y|z|t\n", t.freshID(rng), x))
+	case "big-id": // the largest int: a leaf below x
+		nl = append(nl, nodeRow("9223372036854775807", itoa(x), "species"))
+	case "too-big-id":
+		nl = ins(nl, late(nl), nodeRow("9223372036854775808", "1", "species"))
+	case "odd-space": // \v \f and a carriage return inside a line are blanks for TrimSpace
+		nl = append(nl, nodeRow("\v"+itoa(t.freshID(rng))+"\f", "\r"+itoa(x)+"\r", "\fodd\vrank\r"))
+	case "quote-comment": // a quote in a comment line is harmless, in an ignored field it is not
+		nl = ins(nl, late(nl), "# \"quoted\" comment\n")
+		nl = append(nl, fmt.Sprintf("%d\t|\t%d\t|\tspecies\t|\t\t|\t8\"\t|\n", t.freshID(rng), x))
+	}
+	// the previous last line may lack its terminator
+	fix := func(l []string) []byte {
+		var sb strings.Builder
+		for i, s := range l {
+			sb.WriteString(s)
+			if i < len(l)-1 && s != "" && !strings.HasSuffix(s, "\n") {
+				sb.WriteString("\n")
+			}
+		}
+		return []byte(sb.String())
+	}
+	t.dumpN, t.dumpM, t.dumpG = fix(nl), fix(ml), fix(gl)
+	return kind
+}
+
 // c14AllQueries: every pair / node / rank query of a small tree.
 func c14AllQueries(rng *rand.Rand, t *c14Tree, ranks []string) []string {
 	var qs []string
@@ -403,6 +719,107 @@ func c14AllQueries(rng *rand.Rand, t *c14Tree, ranks []string) []string {
 	}
 	qs = append(qs, c14RandQueries(rng, t, ranks, 10)...)
 	return qs
+}
+
+// c14DumpCase: a hand-written dump (the three files as Go strings)
+func c14DumpCase(n, m, g string, rest string) string {
+	return "dump N" + c14Hex(n) + " M" + c14Hex(m) + " G" + c14Hex(g) + " " + rest
+}
+
+// c14GenExtra: the textual taxid forms, the iterators and the dump loader
+func c14GenExtra(rng *rand.Rand, tier string, emit func(string)) {
+	h := c14Hex
+	sp, ge, fa, nr := h("species"), h("genus"), h("family"), h("no rank")
+	base := "n1:1:" + nr + " n2:1:" + fa + " n3:2:" + ge + " n4:3:" + sp + " n5:3:" + sp + " n6:2:" + ge + " n7:6:" + sp + " a10:4 a11:10 a12:99 a2:7"
+	var strs []string
+	for _, s := range []string{"4", "TX:4", "+4", "-4", "-0", "04", " 4", "4 ", "TX:", "", "TX:x", "tx:4", "TX:10", "Homo [TX:11]", "TX:12", "TX:99 TX:4",
+		"TX:TX:5", "TXTX:5", "TX:5TX:6", "TX: 5", "5 TX:6", "TX:0005", "TX:9223372036854775808", "9223372036854775807", "9223372036854775808",
+		"-9223372036854775808", "-9223372036854775809", "TX:99999999999999999999999", "code:4 [x]@species", "T", "TX", "X:4", "TTX:4", "+", "-", "+-4", "4+",
+		"4\n", "TX:4\n", "1_0", "0x4", "4e0", "TX:٤"[:3]} {
+		strs = append(strs, "qstr:"+h(s))
+	}
+	emit("tax " + base + " " + strings.Join(strs, " ") + " qrss:" + h("TX:3") + ":4 qrss:" + h("3") + ":4 qrss:" + h("x [TX:10]") + ":11 qrss:" + h("TX:4") + ":3 qrss:" + h("none") + ":4 qrss:" + h("TX:99") + ":4 qrss:" + h("TX:3") + ":99 qrss:" + h("TX:1") + ":-")
+	emit("tax " + base + " qstate qisub:1 qisub:2 qisub:3 qisub:4 qisub:10 qisub:99 qisub:7 qirank:" + sp + " qirank:" + ge + " qirank:" + nr + " qirank:" + h("order") + " qirank:-" +
+		" qibel: qibel:3 qibel:3,6 qibel:4,5,7 qibel:1,4 qibel:10,11 qibel:3,99 qibel:2,2 qibel:4,3 qtpath:4 qtpath:11 qtpath:- qtpath:99 qname:10 qname:1 qname:99")
+	emit("taxd " + base + " qstate qisub:3 qibel:3,6 qtpath:5 qname:11 qstr:" + h("TX:11"))
+	// a star and a chain
+	emit("tax n1:1:" + nr + " n2:1:" + sp + " n3:1:" + sp + " n4:1:" + ge + " qisub:1 qisub:3 qibel:2,3 qibel:2,4,3 qirank:" + sp + " qstate")
+	emit("tax n5:5:" + nr + " n4:5:" + fa + " n3:4:" + ge + " n2:3:" + sp + " n1:2:" + h("subspecies") + " qisub:5 qisub:3 qisub:1 qibel:1,2 qibel:3,1 qtpath:1 qtpath:- qstate")
+
+	// hand-written dumps
+	nodes := "1\t|\t1\t|\tno rank\t|\t\t|\t8\t|\n2\t|\t1\t|\tgenus\t|\t\t|\t8\t|\n3\t|\t2\t|\tspecies\t|\t\t|\t8\t|\n4\t|\t2\t|\tspecies\t|\t\t|\t8\t|\n"
+	names := "1\t|\tn1\t|\t\t|\tscientific name\t|\n2\t|\tn2\t|\t\t|\tscientific name\t|\n3\t|\told\t|\t\t|\tscientific name\t|\n3\t|\tn3\t|\tn3 <u>\t|\tscientific name\t|\n3\t|\t\"syn\"\t|\t\t|\tsynonym\t|\n4\t|\tn4\t|\t\t|\tscientific name\t|\n77\t|\tghost\t|\t\t|\tscientific name\t|\n"
+	merged := "9\t|\t3\t|\n10\t|\t9\t|\n11\t|\t99\t|\n2\t|\t4\t|\n12\t|\t11\t|\n"
+	decl := "n1:1:" + nr + " n2:1:" + ge + " n3:2:" + sp + " n4:2:" + sp + " a9:3 a10:9 a11:99 a2:4 a12:11"
+	qs := " qstate qpath:10 qtpath:10 qname:9 qlca:3:4 qlca:10:4 qres:11 qres:12 qres:2 qisub:2 qirank:" + sp + " qstr:" + h("TX:10") + " qrt:2:9 qsr:" + ge + ":10 qwl:3=1,10=1,4=2"
+	emit(c14DumpCase(nodes, names, merged, decl+qs))
+	// the same tree in other layouts: no blanks, blanks, CRLF, comments and empty lines, no final line break, final \r, signs and leading zeros
+	emit(c14DumpCase("1|1|no rank\n2|1|genus\n3|2|species\n4|2|species\n", "1|n1||scientific name\n2|n2||scientific name\n3|n3||scientific name\n4|n4||scientific name\n", "9|3\n10|9\n11|99\n2|4\n12|11\n", decl+qs))
+	emit(c14DumpCase("# nodes\r\n 1 | 1 | no rank |\r\n\r\n2 |1|genus  |\r\n\n\n#3|3|x|\n  +3|002|\tspecies|\n4|2|species|", "1 | n1 | | scientific name |\r\n2|n2||scientific name|\r\n3|n3||scientific name\r\n4|n4|u|  scientific name\t|\r", "9|3|\r\n#\n10|9|\n11|99|\n2|4|\n12|11|\r", decl+qs))
+	// a node without any line in names.dmp (taxon 2 here): SetTaxonAtRank dereferenced its nil scientific name
+	// (found by the dump generator, fixed by notes/patches/C14-setrank-noname.diff); only name-free queries here
+	emit(c14DumpCase(nodes, "1\t|\tn1\t|\t\t|\tscientific name\t|\n3\t|\tn3\t|\t\t|\tscientific name\t|\n", merged,
+		decl+" qsr:"+ge+":3 qsr:"+ge+":10 qsr:"+sp+":3 qsr:"+fa+":3 qrank:3:"+ge+" qlca:3:4 qwl:3=1,4=1"))
+	// damaged files (the model is the only reference): duplicate taxid, ErrBareQuote / ErrFieldCount end the loading silently,
+	// a field that is not a number, a missing field, a line of blanks, an empty line in names.dmp, unknown parent
+	st := "qstate qpath:3 qname:3 qres:9"
+	emit(c14DumpCase(nodes+"3\t|\t1\t|\tfamily\t|\t\t|\t8\t|\n", names, merged, st))
+	emit(c14DumpCase("1|1|no rank|\n2|1|genus|\n3|2|spe\"cies|\n4|2|species|\n", names, merged, st+" qres:4"))
+	emit(c14DumpCase("1|1|no rank|\n2|1|genus|\n3|2|species|x\n4|2|species|\n", names, merged, st+" qres:4"))
+	emit(c14DumpCase("1|1|no rank|\n2|1|genus|\n3|2|species\n4|2|species|\n", names, merged, st+" qres:4"))
+	emit(c14DumpCase("1|1|no rank|\nx|1|genus|\n", names, merged, st))
+	emit(c14DumpCase("1|1|no rank|\n2||genus|\n", names, merged, st))
+	emit(c14DumpCase("1|1\n2|1\n", names, merged, st))
+	emit(c14DumpCase("1\n", names, merged, st))
+	emit(c14DumpCase("1|1|no rank|\n \n2|1|genus|\n", names, merged, st))
+	emit(c14DumpCase(nodes, "1|n1||scientific name|\n\n2|n2||scientific name|\n", merged, st))
+	emit(c14DumpCase(nodes, "1|n1||scientific name|\n2|n2|\n", merged, st))
+	emit(c14DumpCase(nodes, "1|n1||scientific name|\n2|n2||\n3|n3||scientific name|x|y\n", merged, st))
+	emit(c14DumpCase(nodes, "# names\n1|n1||scientific name|\n", merged, st))
+	emit(c14DumpCase(nodes, names, "9|3|\n10|9\"|\n11|3|\n", st+" qres:10 qres:11"))
+	emit(c14DumpCase(nodes, names, "9|3|\n10|9|3|\n11|3|\n", st+" qres:10 qres:11"))
+	emit(c14DumpCase(nodes, names, "9|3|\nx|9|\n", st))
+	emit(c14DumpCase(nodes, names, "9\n", st))
+	emit(c14DumpCase(nodes+"5\t|\t6\t|\tspecies\t|\t\t|\t8\t|\n", names, merged, st))
+	emit(c14DumpCase("", "", "", st))
+	emit(c14DumpCase("\n\n# nothing\n", "", "\r", st))
+	emit(c14DumpCase("7|7|r", "7|seven||scientific name", "", "qstate qtpath:7 qtpath:- qpath:7"))
+	emit(c14DumpCase("7|7|r\r", "7|seven||scientific name\r", "8|7\r", "qstate qtpath:7 qres:8"))
+	emit(c14DumpCase("0|0|\n1|0|\n", "0|||scientific name\n", "", "qstate qtpath:1 qwls:-"))
+
+	nd := 300
+	if tier == "thorough" {
+		nd = 1000
+	}
+	for i := 0; i < nd; i++ {
+		n := 1 + rng.Intn(30)
+		if rng.Intn(10) == 0 {
+			n = 30 + rng.Intn(200)
+		}
+		ranks := c14Ranks
+		if rng.Intn(3) == 0 {
+			ranks = append(append([]string{}, c14Ranks[22:32]...), c14DumpOddRanks...)
+		}
+		odd := rng.Intn(3) == 0
+		idMode := rng.Intn(3)
+		t := c14Label(rng, c14Shape(rng, n, rng.Intn(7)), idMode, ranks)
+		if odd { // parents before children: a truncated file is still closed under parents
+			sort.SliceStable(t.ids, func(a, b int) bool { return t.getRef().depth[t.ids[a]] < t.getRef().depth[t.ids[b]] })
+			t.ref = nil
+		}
+		c14Aliases(rng, t, rng.Intn(8))
+		ncbi := odd || rng.Intn(4) == 0
+		c14RenderDump(rng, t, ncbi)
+		qs := append([]string{"state"}, c14RandQueries(rng, t, ranks, 8+rng.Intn(16))...)
+		if odd {
+			kind := c14Spoil(rng, t)
+			emit(t.dumpLine(false, qs))
+			stat("gen:dump-" + kind)
+		} else {
+			emit(t.dumpLine(true, qs))
+			stat("gen:dump-clean")
+		}
+	}
 }
 
 // c14Enumerate calls f with every parent vector of a rooted labelled tree on n nodes (root = node 0).
@@ -468,6 +885,7 @@ func (c14) Gen(rng *rand.Rand, tier string, emit func(string)) {
 	for _, c := range corpus {
 		emit(c)
 	}
+	c14GenExtra(rng, tier, emit)
 
 	small := []string{"no rank", "genus", "species"}
 	// all rooted labelled trees
@@ -599,6 +1017,12 @@ func c14NewRef(t *c14Tree) *c14Ref {
 		}
 	}
 	return r
+}
+
+func (r *c14Ref) sortedIDs() []int {
+	l := append([]int{}, r.t.ids...)
+	sort.Ints(l)
+	return l
 }
 
 func (r *c14Ref) resolve(id int) (int, bool) {
@@ -835,6 +1259,94 @@ func (r *c14Ref) expect(f []string) string {
 			return "-1"
 		}
 		return strconv.Itoa(y)
+	case "str", "rss":
+		str, _ := c14Unhex(f[1])
+		for i, run := 0, 0; i < len(str); i++ { // numbers near the int range: the model is the reference
+			if str[i] >= '0' && str[i] <= '9' {
+				if run++; run > 18 {
+					return ""
+				}
+			} else {
+				run = 0
+			}
+		}
+		v, neg, ok := c14RefTaxidString(str)
+		var c int
+		known := false
+		if ok && !neg {
+			c, known = r.resolve(v)
+		}
+		if f[0] == "str" {
+			if !ok {
+				return "noparse"
+			}
+			if !known {
+				return "unk"
+			}
+			return strconv.Itoa(c)
+		}
+		x, ok2 := r.resolve(c14SeqTaxid(f[2]))
+		return c14B(known && ok2 && r.isAnc(c, x))
+	case "isub", "ibel":
+		var cs []int
+		for _, c := range ints(f[1]) {
+			n, ok := r.resolve(c)
+			if !ok {
+				return "unk"
+			}
+			cs = append(cs, n)
+		}
+		var l []int
+		for _, x := range r.sortedIDs() {
+			in := len(cs) == 0
+			for _, c := range cs {
+				in = in || r.isAnc(c, x)
+			}
+			if in {
+				l = append(l, x)
+			}
+		}
+		return c14IDs(l)
+	case "irank":
+		k, _ := c14Unhex(f[1])
+		var l []int
+		for _, x := range r.sortedIDs() {
+			if r.t.rank[x] == k {
+				l = append(l, x)
+			}
+		}
+		return c14IDs(l)
+	case "tpath":
+		x, ok := r.resolve(c14SeqTaxid(f[1]))
+		if !ok {
+			return "fatal"
+		}
+		ch := r.chain(x)
+		var parts []string
+		for i := len(ch) - 1; i >= 0; i-- {
+			parts = append(parts, fmt.Sprintf("%d@%s@%s", ch[i], c14Name(ch[i]), r.t.rank[ch[i]]))
+		}
+		return c14Hex(strings.Join(parts, "|"))
+	case "name":
+		x, ok := r.resolve(atoi(f[1]))
+		if !ok {
+			return "unk"
+		}
+		return c14Hex(c14Name(x))
+	case "state":
+		var ns, as []string
+		for _, x := range r.sortedIDs() {
+			ns = append(ns, fmt.Sprintf("%d:%d:%s:%s", x, r.t.parent[x], c14Hex(r.t.rank[x]), c14Hex(c14Name(x))))
+		}
+		keys := make([]int, 0, len(r.alias))
+		for k := range r.alias {
+			keys = append(keys, k)
+		}
+		sort.Ints(keys)
+		for _, k := range keys {
+			as = append(as, fmt.Sprintf("%d:%d", k, r.alias[k]))
+		}
+		return strings.Join(ns, ";") + "/" + strings.Join(as, ";")
 	case "wl", "wls":
 		var keys, ws []int
 		if f[0] == "wls" {
@@ -875,10 +1387,23 @@ func (r *c14Ref) expect(f []string) string {
 
 func c14Parse(c string) (mode string, t *c14Tree, qs []string, ok bool) {
 	f := strings.Fields(c)
-	if len(f) == 0 || (f[0] != "tax" && f[0] != "taxd") {
+	if len(f) == 0 || (f[0] != "tax" && f[0] != "taxd" && f[0] != "dump") {
 		return "", nil, nil, false
 	}
 	t = &c14Tree{parent: map[int]int{}, rank: map[int]string{}}
+	if f[0] == "dump" {
+		if len(f) < 4 || f[1][0] != 'N' || f[2][0] != 'M' || f[3][0] != 'G' {
+			return "", nil, nil, false
+		}
+		var ok1, ok2, ok3 bool
+		t.dumpN, ok1 = c14UnhexB(f[1][1:])
+		t.dumpM, ok2 = c14UnhexB(f[2][1:])
+		t.dumpG, ok3 = c14UnhexB(f[3][1:])
+		if !ok1 || !ok2 || !ok3 {
+			return "", nil, nil, false
+		}
+		f = append([]string{"dump"}, f[4:]...)
+	}
 	num := func(s string) (int, bool) {
 		if s == "" || len(s) > 9 {
 			return 0, false
@@ -930,6 +1455,24 @@ func c14Parse(c string) (mode string, t *c14Tree, qs []string, ok bool) {
 func c14Name(id int) string { return fmt.Sprintf("n%d", id) }
 
 func c14Build(mode string, t *c14Tree) (*obitax.Taxonomy, string) {
+	if mode == "dump" {
+		dir, err := os.MkdirTemp("", "c14dump")
+		if err != nil {
+			return nil, "io-error"
+		}
+		defer os.RemoveAll(dir)
+		os.WriteFile(filepath.Join(dir, "nodes.dmp"), t.dumpN, 0o644)
+		os.WriteFile(filepath.Join(dir, "names.dmp"), t.dumpM, 0o644)
+		os.WriteFile(filepath.Join(dir, "merged.dmp"), t.dumpG, 0o644)
+		tax, err := ncbitaxdump.LoadNCBITaxDump(dir, len(t.dumpN)%2 == 0)
+		if err != nil {
+			return nil, "load-error"
+		}
+		if tax.ReindexParent() != nil { // the loader ignores this error
+			return nil, "reindex-err"
+		}
+		return tax, ""
+	}
 	if mode == "taxd" {
 		dir, err := os.MkdirTemp("", "c14dump")
 		if err != nil {
@@ -1010,6 +1553,78 @@ func c14Ints(s string) []int {
 }
 
 func c14Unrank(h string) string { s, _ := c14Unhex(h); return s }
+
+// c14Drain empties an iterator into the sorted list of the taxids it yields; a taxon yielded twice is a failure
+func c14Drain(it *obitax.ITaxonSet, fail func(sig, format string, a ...any), op string) []int {
+	sl := it.TaxonSlice()
+	l := make([]int, 0, sl.Len())
+	seen := map[int]bool{}
+	for i := 0; i < sl.Len(); i++ {
+		x := sl.Get(i).Taxid()
+		if seen[x] {
+			fail(op+".twice", "taxon %d is yielded twice", x)
+		}
+		seen[x] = true
+		l = append(l, x)
+	}
+	if !it.Finished() || it.Next() || it.Get() != nil {
+		fail(op+".finished", "a drained iterator is not finished")
+	}
+	sort.Ints(l)
+	return l
+}
+
+func c14IDs(l []int) string {
+	if len(l) == 0 {
+		return "-"
+	}
+	return c14Join(l)
+}
+
+// c14RefTaxidString: the taxid a string designates for Taxonomy.Taxon (independent of strconv / regexp):
+// a decimal integer with an optional sign, else the digits following the leftmost "TX:" that is followed by a
+// digit. neg: a negative integer; ok false: no taxid in the string. (at most 18 digits are generated)
+func c14RefTaxidString(s string) (v int, neg bool, ok bool) {
+	digits := func(t string) bool {
+		if t == "" {
+			return false
+		}
+		for i := 0; i < len(t); i++ {
+			if t[i] < '0' || t[i] > '9' {
+				return false
+			}
+		}
+		return true
+	}
+	val := func(t string) int {
+		n := 0
+		for i := 0; i < len(t); i++ {
+			n = n*10 + int(t[i]-'0')
+		}
+		return n
+	}
+	body := s
+	if len(s) > 0 && (s[0] == '+' || s[0] == '-') {
+		body = s[1:]
+	}
+	if digits(body) && len(body) <= 18 {
+		n := val(body)
+		return n, s[0] == '-' && n != 0, true
+	}
+	for i := 0; i+3 < len(s); i++ {
+		if s[i:i+3] == "TX:" && s[i+3] >= '0' && s[i+3] <= '9' {
+			j := i + 3
+			for j < len(s) && s[j] >= '0' && s[j] <= '9' {
+				j++
+			}
+			if j-i-3 > 18 {
+				return 0, false, false // not generated
+			}
+			return val(s[i+3 : j]), false, true
+		}
+	}
+	return 0, false, false
+}
 
 // c14Query runs one query on the real code; extra checks that are not part of the result word are
 // reported through fail.
@@ -1142,10 +1757,113 @@ func c14Query(tax *obitax.Taxonomy, ref *c14Ref, f []string, fail func(sig, form
 		}
 		n, _ := v.(int)
 		name, _ := seq.GetStringAttribute(rank + "_name")
-		if (n >= 0 && name != c14Name(n)) || (n < 0 && name != "NA") {
+		expName := "NA"
+		if n >= 0 {
+			if tn, e := tax.Taxon(n); e == nil {
+				expName = tn.ScientificName()
+			}
+		}
+		if name != expName {
 			fail("sr.name", "%s_taxid=%d with %s_name=%q", rank, n, rank, name)
 		}
 		return strconv.Itoa(n)
+	case f[0] == "str" && len(f) == 2:
+		str, ok := c14Unhex(f[1])
+		if !ok {
+			return "bad-op"
+		}
+		t1, e1 := tax.Taxon(str)
+		if e1 != nil {
+			if strings.HasPrefix(e1.Error(), "I cannot parse") {
+				return "noparse"
+			}
+			return "unk"
+		}
+		return strconv.Itoa(t1.Taxid())
+	case f[0] == "rss" && len(f) == 3:
+		str, ok := c14Unhex(f[1])
+		if !ok {
+			return "bad-op"
+		}
+		seq := c14Seq(f[2])
+		seq.SetAttribute("clade", str)
+		obigrep.VerifSetTaxonomyOptions(tax, []string{"clade"}, []int{}, []string{})
+		return c14B(obigrep.CLIRestrictTaxonomyPredicate()(seq))
+	case f[0] == "isub" && len(f) == 2:
+		c, e := tax.Taxon(id(f[1]))
+		if e != nil {
+			return "unk"
+		}
+		l := c14Drain(tax.IFilterOnSubcladeOf(c), fail, "isub")
+		// the same through the TaxonSet and the TaxonSlice entry points
+		if l2 := c14Drain(tax.TaxonSet().IFilterOnSubcladeOf(c), fail, "isub"); c14Join(l2) != c14Join(l) {
+			fail("isub.set", "TaxonSet.IFilterOnSubcladeOf lists %s, Taxonomy.IFilterOnSubcladeOf %s", c14Join(l2), c14Join(l))
+		}
+		if l3 := c14Drain(tax.Iterator().TaxonSlice().IFilterOnSubcladeOf(c), fail, "isub"); c14Join(l3) != c14Join(l) {
+			fail("isub.slice", "TaxonSlice.IFilterOnSubcladeOf lists %s, Taxonomy.IFilterOnSubcladeOf %s", c14Join(l3), c14Join(l))
+		}
+		if set := tax.IFilterOnSubcladeOf(c).TaxonSet(); set.Len() != len(l) {
+			fail("isub.taxonset", "ITaxonSet.TaxonSet holds %d taxa, the slice %d", set.Len(), len(l))
+		}
+		return c14IDs(l)
+	case f[0] == "irank" && len(f) == 2:
+		l := c14Drain(tax.IFilterOnTaxRank(c14Unrank(f[1])), fail, "irank")
+		if l2 := c14Drain(tax.TaxonSet().IFilterOnTaxRank(c14Unrank(f[1])), fail, "irank"); c14Join(l2) != c14Join(l) {
+			fail("irank.set", "TaxonSet.IFilterOnTaxRank lists %s, Taxonomy.IFilterOnTaxRank %s", c14Join(l2), c14Join(l))
+		}
+		return c14IDs(l)
+	case f[0] == "ibel" && len(f) == 2:
+		set := make(obitax.TaxonSet)
+		for _, c := range c14Ints(f[1]) {
+			n, e := tax.Taxon(c)
+			if e != nil {
+				return "unk"
+			}
+			set.Inserts(n)
+		}
+		return c14IDs(c14Drain(tax.Iterator().IFilterBelongingSubclades(&set), fail, "ibel"))
+	case f[0] == "tpath" && len(f) == 2:
+		seq := c14Seq(f[1])
+		tax.MakeSetPathWorker()(seq)
+		v, _ := seq.GetStringAttribute("taxonomic_path")
+		return c14Hex(v)
+	case f[0] == "name" && len(f) == 2:
+		t1, e1 := tax.Taxon(id(f[1]))
+		if e1 != nil {
+			return "unk"
+		}
+		return c14Hex(t1.ScientificName())
+	case f[0] == "state" && len(f) == 1:
+		var ns, as []string
+		set := tax.TaxonSet()
+		keys := make([]int, 0, set.Len())
+		for k, n := range *set {
+			if n.Taxid() != k {
+				fail("state.key", "nodes[%d] holds taxon %d", k, n.Taxid())
+			}
+			keys = append(keys, k)
+		}
+		sort.Ints(keys)
+		for _, k := range keys {
+			n := set.Get(k)
+			ns = append(ns, fmt.Sprintf("%d:%d:%s:%s", k, n.Parent().Taxid(), c14Hex(n.Rank()), c14Hex(n.ScientificName())))
+		}
+		al := *tax.Alias()
+		keys = keys[:0]
+		for k := range al {
+			keys = append(keys, k)
+		}
+		sort.Ints(keys)
+		for _, k := range keys {
+			as = append(as, fmt.Sprintf("%d:%d", k, al[k].Taxid()))
+			if n := set.Get(al[k].Taxid()); n != al[k] {
+				fail("state.alias", "alias[%d] is not a node of the taxonomy", k)
+			}
+		}
+		if all := c14Drain(tax.Iterator(), fail, "iter"); len(all) != tax.Len() {
+			fail("state.iter", "Taxonomy.Iterator yields %d taxa of %d", len(all), tax.Len())
+		}
+		return strings.Join(ns, ";") + "/" + strings.Join(as, ";")
 	case (f[0] == "wl" && len(f) == 2) || (f[0] == "wls" && len(f) == 2):
 		mk := func() *obiseq.BioSequence {
 			if f[0] == "wls" {
@@ -1179,7 +1897,7 @@ func c14Query(tax *obitax.Taxonomy, ref *c14Ref, f []string, fail func(sig, form
 			n, _ := seq.GetStringAttribute("lca_name")
 			return fmt.Sprintf("%d %v %s", v, e, n)
 		})
-		if exp := fmt.Sprintf("%d 0 %s", l.Taxid(), c14Name(l.Taxid())); w != exp {
+		if exp := fmt.Sprintf("%d 0 %s", l.Taxid(), l.ScientificName()); w != exp {
 			fail("wl.worker", "AddLCAWorker annotates %q expected %q", w, exp)
 		}
 		return strconv.Itoa(l.Taxid())
@@ -1236,7 +1954,7 @@ func (c14) Exec(c string) (string, []Fail) {
 			fail(f[0]+".value", "real code answers %s, the tree implies %s", r, exp)
 		}
 		switch r {
-		case "panic", "fatal", "err", "unk", "nil", "hang":
+		case "panic", "fatal", "err", "unk", "nil", "hang", "noparse", "-":
 			stat("out:" + f[0] + "." + r)
 		}
 		res = append(res, r)
